@@ -29,7 +29,16 @@ type Replayer struct {
 	Binary  string
 	Overlay string
 	BuildS  float64
+	GoWork  string // alternate workspace file (hash instrumentation of x/crypto), "" if unused
 	built   bool
+}
+
+func (r *Replayer) env() []string {
+	e := goEnv()
+	if r.GoWork != "" {
+		e = append(e, "GOWORK="+r.GoWork)
+	}
+	return e
 }
 
 func NewReplayer(L *Loaded, dir string) (*Replayer, error) {
@@ -93,6 +102,11 @@ func (r *Replayer) prepare() error {
 			replace[filepath.Join(r.L.PkgDir, e.Name())] = ""
 		}
 	}
+	if r.L.usesHashLog() {
+		if err := r.hashOverlay(replace, gen); err != nil {
+			return err
+		}
+	}
 	b, err := json.MarshalIndent(map[string]interface{}{"Replace": replace}, "", "  ")
 	if err != nil {
 		return err
@@ -113,7 +127,7 @@ func (r *Replayer) Build() error {
 	r.Binary = filepath.Join(r.Dir, r.L.PkgName+".replay.test")
 	cmd := exec.Command(GoBinary, "test", "-c", "-tags", BuildTags, "-vet=off", "-overlay", r.Overlay, "-o", r.Binary, r.L.PkgPath)
 	cmd.Dir = RepoDir
-	cmd.Env = goEnv()
+	cmd.Env = r.env()
 	out, err := cmd.CombinedOutput()
 	r.BuildS = time.Since(t0).Seconds()
 	if err != nil {
@@ -125,7 +139,11 @@ func (r *Replayer) Build() error {
 
 // GoTestCommand is the from-scratch command line equivalent to what Run does.
 func (r *Replayer) GoTestCommand(assignFile string) string {
-	return fmt.Sprintf("cd %s && GOFLAGS= GOPROXY=off GOSUMDB=off GOTOOLCHAIN=local VERIF_REPLAY=%s %s test -tags %s -vet=off -count=1 -overlay %s -run '^TestVerifReplay$' %s",
+	work := ""
+	if r.GoWork != "" {
+		work = "GOWORK=" + r.GoWork + " "
+	}
+	return fmt.Sprintf("cd %s && "+work+"GOFLAGS= GOPROXY=off GOSUMDB=off GOTOOLCHAIN=local VERIF_REPLAY=%s %s test -tags %s -vet=off -count=1 -overlay %s -run '^TestVerifReplay$' %s",
 		RepoDir, assignFile, GoBinary, BuildTags, r.Overlay, r.L.PkgPath)
 }
 
@@ -172,19 +190,23 @@ func (r *Replayer) Confirm(o *Obligation) (bool, string, string) {
 	name := o.Harness + "__" + o.ID
 	path, err := r.WriteAssignments(name, []*Assignment{o.cand.assign})
 	if err != nil {
+		o.cand.infra = true
 		return false, "", "cannot write assignment: " + err.Error()
 	}
 	runs, _, err := r.Run(path)
 	if err != nil {
+		o.cand.infra = true
 		return false, path, err.Error()
 	}
 	sh := strings.TrimSuffix(path, ".json") + ".sh"
 	os.WriteFile(sh, []byte("#!/bin/sh\n# native replay of "+name+" (expected to FAIL)\n"+r.GoTestCommand(path)+"\n"), 0o755)
 	if len(runs) != 1 {
+		o.cand.infra = true
 		return false, path, fmt.Sprintf("native replay returned %d runs", len(runs))
 	}
 	run := runs[0]
 	if run.Desync != "" {
+		o.cand.infra = true
 		return false, path, "native run consumed the assignment differently: " + run.Desync
 	}
 	if o.cand.expectP {
